@@ -12,7 +12,8 @@ from . import common
 PP = re.compile(r'^output\.ValidateParamsExist: (.*): param "([^"]*)" does not exist$')
 PS = re.compile(r'^output\.ValidateServicesExist: (.*): service "([^"]*)" does not exist$')
 
-PARAM_SHAPES = ["%{n}%", "pre %{n}% post", "%{n}%%{n}%", "%%%{n}%", "%{n}%%%", "a%%b%{n}%c", "%p_ok%-%{n}%", "%env(\"HOME\")%/%{n}%"]
+PARAM_SHAPES = ["%{n}%", "pre %{n}% post", "%{n}%%{n}%", "%%%{n}%", "%{n}%%%", "a%%b%{n}%c", "%p_ok%-%{n}%", "%env(\"HOME\")%/%{n}%",
+                "%{n}%://%host%:%p_ok%", "%host%/%{n}%/%p_ok%", "%{n}%%host%%{n}%%p_ok%", "%zz_{n}%-%{n}%-%aa_{n}%"]
 POSITIONS = ["param", "sarg", "carg", "field", "darg"]
 
 
@@ -74,37 +75,7 @@ def families(tier, seed):
     return out
 
 
-def dangling(cfg):
-    """(referrer, kind, name) for every reference to an undeclared parameter / service"""
-    params = set((cfg.get("parameters") or {}))
-    services = set((cfg.get("services") or {}))
-    out = []
-    for n, v in (cfg.get("parameters") or {}).items():
-        if isinstance(v, str):
-            for r in spec.param_refs(v):
-                if r not in params:
-                    out.append(('"%' + n + '%"', "param", r))
-    for n, sv in (cfg.get("services") or {}).items():
-        if sv.get("todo"):
-            continue
-        for a in spec.service_args(sv):
-            c = spec.classify_arg(a)
-            if c[0] == "pattern":
-                for r in c[1]:
-                    if r not in params:
-                        out.append(('"@' + n + '"', "param", r))
-            elif c[0] == "service" and c[1] not in services:
-                out.append(('"' + n + '"', "service", c[1]))
-    for j, d in enumerate(cfg.get("decorators") or []):
-        for a in d.get("arguments") or []:
-            c = spec.classify_arg(a)
-            if c[0] == "pattern":
-                for r in c[1]:
-                    if r not in params:
-                        out.append(('decorator(#%d, "%s")' % (j, d["tag"]), "param", r))
-            elif c[0] == "service" and c[1] not in services:
-                out.append(('decorator(#%d, "%s")' % (j, d["tag"]), "service", c[1]))
-    return out
+dangling = spec.dangling
 
 
 def run(tier, seed, replay):
